@@ -688,8 +688,16 @@ package rapid
 // ---------------------------------------------------------------------------------------------
 // combinators.go: Custom
 
+// genFalsified: the generator function itself ended by a panic that is not a skip (invalid data).
+//@ ghost genFalsified Bool
+
 //@ func (*customGen).maybeValue
 //@   immutable g
+//   A failure of the generator function leaves maybeValue as a failure, whatever the inner T's cleanups do (C02).
+//@   at g.fn#0 set genFalsified = false
+//@   at g.fn#0 onpanic genFalsified = !isInvalidData(panicval)
+//@   ensures [C02] !genFalsified
+//@   panics any [C02]: implies(genFalsified, !isInvalidData(panicval))
 //@   ensures [C15] true
 //@   noframe "calls the user's generator function on a fresh inner T"
 //@   requires [C02] g.fn != nil
@@ -698,8 +706,7 @@ package rapid
 //@   at newT#0 assert [C10] arg0 == t.tb && arg1 == t.s
 //@   ensures [C02] now(t).failed == ""
 //@   ensures [C10,C11] fresh(now(t)) && len(now(t).cleanups) == 0 && now(t).ctx == nil && now(t).cancelCtx == nil
-//@   panics any [C02]: true
-//@   modifies drawn, stream(t.s), cancelled, cbFalsified
+//@   modifies drawn, stream(t.s), cancelled, cbFalsified, genFalsified
 
 // ---------------------------------------------------------------------------------------------
 // statemachine.go
@@ -1246,9 +1253,9 @@ package rapid
 //@   nosafety "package initialisation is only checked for the integer kind table"
 //@   panics any: true
 //@   noframe "initialises package variables"
-//   The frames hidden at the top of a traceback are exactly the five re-raising literals (C05: hiding more merges
+//   The frames hidden at the top of a traceback are exactly the six re-raising literals (C05: hiding more merges
 //   distinct failure sites - e.g. failOnError is what tells "failed, then skipped" from a plain skip).
-//@   after-store tracebackBlacklist assert [C05] len(tracebackBlacklist) == 5
+//@   after-store tracebackBlacklist assert [C05] len(tracebackBlacklist) == 6
 //@   after-store integerKindToInfo assert [C03,C18] integerKindToInfo["Int8"].signed && integerKindToInfo["Int8"].smin == math.MinInt8 && integerKindToInfo["Int8"].smax == math.MaxInt8
 //@   after-store integerKindToInfo assert [C03,C18] integerKindToInfo["Int16"].signed && integerKindToInfo["Int16"].smin == math.MinInt16 && integerKindToInfo["Int16"].smax == math.MaxInt16
 //@   after-store integerKindToInfo assert [C03,C18] integerKindToInfo["Int32"].signed && integerKindToInfo["Int32"].smin == math.MinInt32 && integerKindToInfo["Int32"].smax == math.MaxInt32
